@@ -508,6 +508,30 @@ func probeLarge(c Config, den string) string {
 	return "1000000"
 }
 
+// ModuleReported re-computes a position's reported token amount with the module's own 18-digit operations
+// (GetDelegationTokens: shares/totalShares x (validatorShares/totalValidatorShares x totalTokens) + 0.01,
+// truncated) on the independently decoded records. It can be one above the floor of the exact value + 0.01
+// when the 18-digit roundings push a value such as 0.98999999... up to 0.99.
+func ModuleReported(s *Snap, pk PosKey) *big.Int {
+	d, ok := s.Dels[pk]
+	v := s.Vals[pk.Val]
+	a, okA := s.Assets[pk.Denom]
+	if !ok || v == nil || !v.HasInfo || !okA {
+		return new(big.Int)
+	}
+	vs := decAmount(v.Info.ValidatorShares, pk.Denom)
+	valTokens := math.LegacyNewDecFromInt(a.TotalTokens)
+	if !a.TotalValidatorShares.IsZero() {
+		valTokens = vs.Quo(a.TotalValidatorShares).Mul(math.LegacyNewDecFromInt(a.TotalTokens))
+	}
+	S := decAmount(v.Info.TotalDelegatorShares, pk.Denom)
+	tok := valTokens
+	if !S.IsZero() {
+		tok = d.Shares.Quo(S).Mul(valTokens)
+	}
+	return tok.Add(math.LegacyNewDecWithPrec(1, 2)).TruncateInt().BigInt()
+}
+
 // emulateUndelegateRefusal re-computes, with the module's own 18-digit operations applied to the
 // independently decoded records, whether undelegating `amt` from the position is refused by the
 // documented mechanism of rounder-balance (share count for the amount, truncated, exceeds the shares held;
